@@ -45,6 +45,22 @@ pub fn judge(x: &Vec<u8>, st: &mut Stats) -> Verdict {
     if r1.is_ok() && r2.is_ok() {
         return fail("both-accept", "never both parsers accept".into());
     }
+    // the tagging conversions (what the auto-detecting parser wraps its results with, public as `From`): the dedicated
+    // parser's result goes in unchanged, under the matching version, with the same completeness flags
+    if let Ok((t2, t1, f2, f1)) = crate::engine::guard(|| {
+        let t2 = HeaderResult::from(ppp::v2::Header::try_from(&x[..]));
+        let t1 = HeaderResult::from(ppp::v1::Header::try_from(&x[..]));
+        let f2 = (t2.is_incomplete(), t2.is_complete());
+        let f1 = (t1.is_incomplete(), t1.is_complete());
+        (t2, t1, f2, f1)
+    }) {
+        if t2 != HeaderResult::V2(imp::v2_parse(x).unwrap()) || f2 != (r2.is_incomplete(), r2.is_complete()) {
+            return fail("tagging-conversion-v2", "HeaderResult::from(v2 result) == V2(that result), same completeness".into());
+        }
+        if t1 != HeaderResult::V1(imp::v1_bytes(x).unwrap()) || f1 != (r1.is_incomplete(), r1.is_complete()) {
+            return fail("tagging-conversion-v1", "HeaderResult::from(v1 result) == V1(that result), same completeness".into());
+        }
+    }
     if r2.is_ok() {
         if a != HeaderResult::V2(imp::v2_parse(x).unwrap()) {
             return fail("v2-result-not-returned", "auto == V2(the v2 parser's header)".into());
